@@ -431,6 +431,9 @@ impl Ctx {
                 *st.counters.entry(format!("{}.trivial", sub)).or_insert(0) += 1;
             }
             Outcome::Inconclusive(r) => {
+                if self.one.is_some() {
+                    eprintln!("INCONCLUSIVE: {}", r);
+                }
                 *st.inconclusive.entry(format!("{}: {}", sub, truncate(&r, 120))).or_insert(0) += 1;
             }
             Outcome::Violated { sig, detail } => {
